@@ -287,6 +287,15 @@ def wire_stage(prop, tier, seed, replay):
                     cid += 1
                     cases.append({"id": cid, "ty": d.name, "op": "de", "doc": doc})
                     info[cid] = (d, v, cls, doc)
+            if prop in ("C10",) and d.kind == "union" and not cfg["exhaustive"]:
+                # unknown variants as values among others: equal exactly when name and payload are equal, in ==, cmp and hash
+                # (a set or map keyed by the union must keep two unknown variants that differ only in their payload)
+                listed_docs = [dd for (_, _, cls_, dd) in [info[k] for k in info if info[k][0] is d] if cls_ == "canonical"][:3]
+                udocs = ["{\"type\":\"zzA\",\"zzA\":1}", "{\"type\":\"zzA\",\"zzA\":2}", "{\"type\":\"zzA\",\"zzA\":{\"k\":[1]}}", "{\"zzA\":1,\"type\":\"zzA\"}",
+                         "{\"type\":\"zzB\",\"zzB\":1}", "{\"type\":\"zzB\",\"zzB\":\"1\"}", "{\"type\":\"zzB\",\"zzB\":null}", "{\"type\":\"zzB\",\"zzB\":[1,2]}"]
+                cid += 1
+                cases.append({"id": cid, "ty": d.name, "op": "laws", "docs": udocs + listed_docs})
+                info[cid] = (d, None, "laws/unknown-variants", json.dumps(udocs + listed_docs))
             if prop in ("C10",) and d.kind in ("enum", "union"):
                 for cls, doc in unknown_docs(r, d):
                     cid += 1
@@ -307,6 +316,19 @@ def wire_stage(prop, tier, seed, replay):
         c.exhaustive = cfg["exhaustive"]
         for cid, (d, v, cls, doc) in info.items():
             out = results.get(cid)
+            if cls == "laws/unknown-variants":
+                rep["evaluations"] += 1
+                rep["matrix"]["class/" + cls] = rep["matrix"].get("class/" + cls, 0) + 1
+                o = out or {}
+                docs_ = json.loads(doc)
+                if "panic" in o or not o or o.get("parsed") != o.get("given"):
+                    rep["violations"].append(violation("wire", cs, "unknown-variants:documents-not-parsed", {"type": d.name, "observed": json.dumps(o)[:300], "docs": docs_[:4]}))
+                for bad in o.get("violations", []):
+                    rep["violations"].append(violation("wire", cs, "unknown-variants:%s" % bad["law"], {"type": d.name, "law": bad["law"], "documents": [docs_[j] for j in bad["docs"] if j < len(docs_)][:3], "config": cfg}))
+                # 8 unknown documents, two of which denote the same value (member order): 7 distinct values in a set
+                if o.get("distinct_in_btreeset") is not None and o.get("distinct_in_btreeset") < 7:
+                    rep["violations"].append(violation("wire", cs, "unknown-variants:set-drops-values", {"type": d.name, "kept": o.get("distinct_in_btreeset"), "docs": docs_[:8]}))
+                continue
             if cls.startswith("plain/"):
                 judge_plain_enum(rep, distinct, cs, cfg, d, cls, doc, out)
                 continue
@@ -496,6 +518,9 @@ def unknown_docs(r, d):
                 out.append(("unknown/unlisted-variant", "{\"type\":%s,%s:%s}" % (json.dumps(name), json.dumps(name), p)))
             else:
                 out.append(("unknown/unlisted-variant", "{%s:%s,\"type\":%s}" % (json.dumps(name), p, json.dumps(name))))
+        if "type" not in listed:
+            # a variant that is itself called `type`: discriminator first, then the value member under the same key
+            out.append(("unknown/unlisted-variant", "{\"type\":\"type\",\"type\":%s}" % r.choice(["1", "[]", "{\"k\":[true]}", "null", "-0.5"])))
     return out
 
 
